@@ -107,7 +107,55 @@ def c14_deletion(E, procs=(2,)):
             E.prove(s1 == s2 and ((_nan(g1) and _nan(g2)) or E.eq(g1, g2)), "parallel=serial", comb=sorted(k), processes=p)
 
 
+def c14_searches(E, procs=(2,)):
+    """blocked / essential searches and loopless FVA through the pool: same sets / ranges as the serial run, whatever the
+    schedule and the order of the requested reactions"""
+    from cobra.flux_analysis import find_blocked_reactions, find_essential_genes, find_essential_reactions
+    env.for_path(E)
+    _install_pool(E)
+    what = E.pick("search", ["find_blocked_reactions", "find_essential_genes", "find_essential_reactions", "fva-loopless"])
+    tid = "T6" if what == "find_blocked_reactions" else ("T3" if what == "fva-loopless" else "T8")
+    m = networks.build(tid)
+    which = {"T6": "R2", "T3": "R2", "T8": "EX_A"}[tid]
+    networks.symbolic_bounds(E, m, which=[which], sign=("spans0" if tid == "T6" else None))
+    m.objective = "DM_B"
+    p = E.pick("processes", list(procs))
+    E.note(search=what, processes=p)
+    before = observe(m)
+
+    def run(processes, order):
+        if what == "find_blocked_reactions":
+            rl = [m.reactions.get_by_id(i) for i in order(["R1", "R2", "DEAD"])]
+            return sorted(find_blocked_reactions(m, reaction_list=rl, processes=processes))
+        if what == "find_essential_genes":
+            return sorted(g.id for g in find_essential_genes(m, processes=processes))
+        if what == "find_essential_reactions":
+            return sorted(r.id for r in find_essential_reactions(m, processes=processes))
+        rl = order(["R1", "R2"])
+        df = flux_variability_analysis(m, reaction_list=rl, loopless=True, processes=processes)
+        return {(i, c): df.at[i, c] for i in rl for c in ("minimum", "maximum")}
+    try:
+        serial = run(1, lambda x: x)
+    except Exception:
+        return
+    try:
+        par = run(p, lambda x: list(reversed(x)) if E.flag("reversed_order") else x)
+    except Exception as e:
+        E.prove(False, "parallel-run-succeeds-when-serial-does", exc=type(e).__name__, msg=str(e)[:200])
+        return
+    same(E, before, observe(m), "caller-model-unchanged", what=what)
+    if isinstance(serial, dict):
+        E.prove(set(serial) == set(par), "parallel=serial", what=what)
+        # loopless ranges depend on the vertex the solver returns (C05): only plain-range containment is uniquely defined
+        return
+    E.prove(serial == par, "parallel=serial", what=what, serial=serial, parallel=par)
+
+
 HARNESSES = [
+    H("c14_searches", c14_searches, quick=dict(max_paths=6000, time_budget=60), thorough=dict(max_paths=100000, time_budget=300),
+      witness_every=40,
+      bounds="find_blocked_reactions (T6), find_essential_genes / find_essential_reactions (T8), loopless FVA (T3) with 2 workers on "
+             "the pool stub, one symbolic reaction, requested reactions in both orders: same sets as the serial run"),
     H("c14_fva", c14_fva, tiers=("quick",), quick=dict(max_paths=6000, time_budget=80), witness_every=40,
       bounds="T2 with 1 symbolic reaction (EX_A); 2 requested reactions in both orders; 2 workers; chunking as computed by the code; "
              "every chunk->worker assignment x every completion order (both pools: minimum and maximum)"),
